@@ -57,7 +57,7 @@ ShiftInCols(f, rlab) ==
            cls == [j \in 1..NCols(f) |-> Levels(f.columns[j]) \o <<CellAt(f, r, j)>>]
        IN IF ~Unique(cls) THEN Err("init_nonunique") ELSE IF ~TreeOrdered(cls) THEN Err("init")
           ELSE AnyFrame(Take(f.index, keep), [j \in 1..NCols(f) |-> Tup(cls[j])], [j \in 1..NCols(f) |-> Take(f.cols[j].vals, keep)], f.name)
-(* relabel_shift_out(levels, axis=0): the named index levels (0-based, ascending) become leading columns labelled by their level names; *)
+(* relabel_shift_out(levels, axis=0): the named index levels (0-based, in the order given) become leading columns labelled by their level names; *)
 (* the other levels stay (all moved: the index becomes 0..n-1)                                                                            *)
 ShiftOutRows(f, names, lv) ==
   LET d == Len(names)
